@@ -315,8 +315,60 @@ func runCollCase(c *Ctx, ops []string) {
 	c.model(op, impl, "model")
 }
 
+// the variable collection is an input of every evaluation: a variable removed and another one of the same name (or another
+// name) added - the number of entries unchanged - is seen by the next evaluation, as by a new calculator
+func propVariableReplacement(c *Ctx) {
+	for _, sc := range []struct{ expr, rem, add string }{{"a + b", "a", "a"}, {"a + b", "a", "A"}, {"a * 10 + b", "b", "B"}, {"a + b", "b", "c"}, {"a + b + a", "a", "a"}, {"Max(a, b)", "a", "a"}} {
+		for _, def := range []bool{false, true} {
+			op := fmt.Sprintf("varrepl %s %s %s %v", strRunes(sc.expr), sc.rem, sc.add, def)
+			c.record(op, true)
+			c.count("variable-replaced")
+			note := ""
+			st := safeCall(func() string {
+				calc := calculator.NewExpressionCalculator()
+				calc.SetAutoVariables(false)
+				calc.SetExpression(sc.expr)
+				coll := variables.NewVariableCollection()
+				if def {
+					coll = calc.DefaultVariables().(*variables.VariableCollection)
+				}
+				coll.Add(variables.NewVariable("a", variants.VariantFromInteger(1)))
+				coll.Add(variables.NewVariable("b", variants.VariantFromInteger(2)))
+				ev := func(cc *calculator.ExpressionCalculator, vs *variables.VariableCollection) string {
+					if def {
+						return outcome(cc.Evaluate())
+					}
+					return outcome(cc.EvaluateUsingVariables(vs))
+				}
+				ev(calc, coll)
+				coll.RemoveByName(sc.rem)
+				coll.Add(variables.NewVariable(sc.add, variants.VariantFromInteger(100)))
+				got := ev(calc, coll)
+				fresh := calculator.NewExpressionCalculator()
+				fresh.SetAutoVariables(false)
+				fresh.SetExpression(sc.expr)
+				fcoll := variables.NewVariableCollection()
+				if def {
+					fcoll = fresh.DefaultVariables().(*variables.VariableCollection)
+				}
+				for _, v := range coll.GetAll() {
+					fcoll.Add(variables.NewVariable(v.Name(), v.Value().Clone()))
+				}
+				if want := ev(fresh, fcoll); got != want {
+					note = fmt.Sprintf("%q: after %q was removed and %q = 100 added (the collection has as many entries as before) the calculator gives %s, a new calculator with that collection gives %s", sc.expr, sc.rem, sc.add, got, want)
+				}
+				return ""
+			})
+			if st != "" || note != "" {
+				c.fail(Failure{Kind: "oracle", Op: op, Impl: st, Note: note})
+			}
+		}
+	}
+}
+
 func propC18(c *Ctx) {
 	propScaleCollections(c)
+	propVariableReplacement(c)
 	propScaleExpressions(c, "C18")
 	g := newExGen(c)
 	g.vars = []string{"a", "A", "b", "xyz", "XyZ", "_v1", "\"my var\"", "\"MY VAR\"", "é1", "É1", "iſ_x", "IS_X", "\"a\"", "Max", "null_1", "\"a[\"", "\"a{\"", "\"f@\"", "\"f`\""}
@@ -379,6 +431,10 @@ func propC18(c *Ctx) {
 var mustacheVars func(c *Ctx)
 
 func replayC18(c *Ctx, op string) {
+	if strings.HasPrefix(op, "varrepl ") {
+		propVariableReplacement(c)
+		return
+	}
 	f := strings.Fields(op)
 	switch f[0] {
 	case "coll":
